@@ -6,19 +6,36 @@ from common import *
 
 
 def step_worker(args):
-    src, mir, profile, n, which, empty_ok, bins, real_deck, sl, nsl = args
+    src, mir, profile, n, which, empty_ok, bins, real_deck, sl, nsl = args[:10]
+    ctor = args[10] if len(args) > 10 else None
     t0 = time.time()
     import z3
     import mirx
     import itermodel
     from mlib import load_lib
-    out = dict(n=n, profile=profile, slice=f'{sl+1}/{nsl}', results=[], error=None, kinds={})
+    out = dict(n=n, profile=profile, slice=f'{sl+1}/{nsl}', results=[], error=None, kinds={}, ctor=None)
     try:
         M = load_lib(src, profile, mir)
         M.qtimeout = 300
         S0 = None
         extra = []
-        S, outs = itermodel.run_step(M, src, n, empty_ok=empty_ok)
+        if ctor:
+            # constructor-derived state: concrete flop and small concrete ranges through the REAL new(), then symbolic position/scope/odometer
+            S = itermodel.build_from_ctor(M, src, ctor['flop'], ctor['ranges'])
+            out['ctor'] = dict(flop=ctor['flop'], sizes=[len(r) for r in ctor['ranges']], unknown_fields=getattr(S, 'unknown_fields', None))
+            real_deck = False
+            if S.ctor_panic:
+                import z3 as _z3
+                hist = dict(flop=''.join(itermodel.conc_card_name(c) for c in S.flop), scope='', position=(0, 1), lens=[len(r) for r in ctor['ranges']],
+                            ranges=['c:' + ','.join(f"{itermodel.conc_card_name(sl_[0].f[0])}{itermodel.conc_card_name(sl_[0].f[1])}=3f800000" for sl_ in rc) for rc in S.range_combos])
+                bad, raw = itermodel.native_enumerate_bad(bins, hist, ('debug', 'release'))
+                out['results'].append(dict(ob='no-panic', status='sat', kind='PANIC', solver_s=0, panic='constructor: ' + S.ctor_panic, history=hist, native=bad, reproduced=bool(bad), lens=hist['lens']))
+                out.update(paths=1, stmts=M.stats['stmts'], feas_queries=M.nq, feas_s=round(M.qtime, 1), cut_head=None, idx_bits=None)
+                out['wall'] = round(time.time() - t0, 1)
+                return out
+            S, outs = itermodel.run_step(M, src, S.n, prebuilt=S)
+        else:
+            S, outs = itermodel.run_step(M, src, n, empty_ok=empty_ok)
         itermodel.showdown_layout(src, S)
         if real_deck:
             dc = itermodel.real_deck_constraint(S)
@@ -80,17 +97,24 @@ def run_configs(PID, which, configs, tier, seed, t0, level='model_checking', ext
     obs = list(extra_obs)
     try:
         mirs = {p: mir_dump(src, p) for p in sorted({c[0] for c in configs})}
+        configs = list(configs)
         jobs = []
-        for p, n, e in configs:
-            nsl = {1: 2, 2: 6, 3: 12}.get(n, 12)
-            jobs += [(src, mirs[p], p, n, which, e, bins, real_deck, k, nsl) for k in range(nsl)]
+        for cfg in configs:
+            p, n, e = cfg[:3]
+            ctor = cfg[3] if len(cfg) > 3 else None
+            nsl = 1 if ctor else {1: 2, 2: 6, 3: 12}.get(n, 12)
+            jobs += [(src, mirs[p], p, n, which, e, bins, real_deck, k, nsl, ctor) for k in range(nsl)]
         jobs.sort(key=lambda j: -j[3])
         with Pool(min(NCPU, len(jobs))) as pool:
             results = pool.map(step_worker, jobs, chunksize=1)
         agg = {}
+        seen_err = {}
         for r in results:
             if r['error']:
-                obs.append(Obligation(f"engine[n={r['n']},{r['profile']}]", 'inconclusive', r['error']))
+                seen_err.setdefault(r['error'], []).append(f"n={r['n']},{r['profile']}" + (',ctor' if r.get('ctor') else ''))
+        for e_, where in seen_err.items():
+            obs.append(Obligation(f"engine[{where[0]}{'+%d more' % (len(where) - 1) if len(where) > 1 else ''}]", 'inconclusive', e_))
+        for r in results:
             for rec in r['results']:
                 if rec['ob'] == 'loop-skip':
                     continue
@@ -121,17 +145,17 @@ def run_configs(PID, which, configs, tier, seed, t0, level='model_checking', ext
             else:
                 obs.append(Obligation(ob, 'holds', f'UNSAT on all {q} paths it applies to', queries=q, solver_s=ss))
         paths = sum(r.get('paths', 0) for r in results)
-        if not any(r['error'] for r in results):
+        if not any(r['error'] for r in results if r['error'] and not r['error'].startswith('unsupported: iterator field')):
             for nme, what in expected:
                 if nme not in agg:
                     obs.append(Obligation(nme, 'holds', f'none of the {paths} feasible paths {what}', queries=paths))
         cov = dict(states=max(paths, 1), transitions=max(sum(o.queries for o in obs) + sum(r.get('feas_queries', 0) for r in results), 1),
                    traces_validated_against_impl=sum(1 for o in obs if o.cex and o.cex.get('reproduced')),
-                   samples=[dict(n=r['n'], profile=r['profile'], slice=r['slice'], paths=r.get('paths'), outcome_kinds=r['kinds'], wall=r['wall'], cut_head=r.get('cut_head'),
+                   samples=[dict(n=r['n'], profile=r['profile'], slice=r['slice'], ctor=r.get('ctor'), paths=r.get('paths'), outcome_kinds=r['kinds'], wall=r['wall'], cut_head=r.get('cut_head'),
                                  odometer_bits=r.get('idx_bits')) for r in results],
                    functions_encoded=['<FlopExhaustiveEvaluatorIterator as Iterator>::next (+ or_else closures)', 'Showdown::new', '<CardPair as Index<usize>>::index',
                                       'derived PartialEq of Card/Rank/Suit (via the set model)'],
-                   bounds=f"player counts {sorted({c[1] for c in configs})}; every entry-list length 0..=1326 (symbolic), every flop/deck/position/scope end/odometer value (symbolic); profiles {sorted(mirs)}",
+                   bounds=f"symbolic-state runs: player counts {sorted({c[1] for c in configs if len(c) < 4})}; constructor-derived runs (real new() on a concrete flop and small concrete ranges, then symbolic position/scope/odometer): {[r['ctor']['sizes'] for r in results if r.get('ctor')]}; every entry-list length 0..=1326 (symbolic), every flop/deck/position/scope end/odometer value (symbolic); profiles {sorted(mirs)}",
                    stubs=['MadeHand::from -> uninterpreted class in 1..=7462 (S8)', 'HashSet -> list model (S1)', 'entry lists -> symbolic length + uninterpreted element functions',
                           'self-call / loop back-edge of next() -> not unrolled: the state at that point is checked against succ(p) (induction)'],
                    mir_statements=sum(r.get('stmts', 0) for r in results),
@@ -144,3 +168,39 @@ def run_configs(PID, which, configs, tier, seed, t0, level='model_checking', ext
     if collect_only:
         return obs, cov
     finish(PID, tier, level, obs, cov, list(assumptions), t0, seed)
+
+
+def ctor_configs(seed, profiles=('dev',), quick=True):
+    """seed-chosen small scenarios for the constructor-derived runs: range sizes include rotated size orders and an empty range"""
+    import random
+    rnd = random.Random(seed)
+    deckc = [(r, s) for r in range(13) for s in range(4)]
+
+    flop = rnd.sample(deckc, 3)
+    free = [c for c in deckc if c not in flop]
+
+    def combos(k):
+        out = []
+        while len(out) < k:
+            a, b = rnd.sample(free, 2)
+            if (a, b) not in out and (b, a) not in out:
+                out.append((a, b))
+        return out
+    shapes = [(2, 3, 1), (3, 1, 2), (2, 2), (1,), (0,), (2, 0)] if quick else [(2, 3, 1), (3, 1, 2), (1, 3, 2), (2, 2), (3, 3), (1,), (4,), (0,), (2, 0), (0, 2), (1, 1, 1)]
+    cfgs = []
+    for sh in shapes:
+        ranges = [combos(k) for k in sh]
+        # deliberate collisions: a combo shared by two players, a card shared by two players, and a combo holding a flop card
+        big = sorted([r for r in ranges if len(r) >= 2], key=len, reverse=True)
+        ne = [r for r in ranges if r]
+        if big and len(ne) >= 2:
+            other = [r for r in ne if r is not big[0]][0]
+            if len(other) >= 2:
+                other[-1] = big[0][0]
+            else:
+                big[0][0] = (other[0][0], big[0][0][1]) if other[0][0] != big[0][0][1] else big[0][0]
+        if big and len(big[0]) >= 3:
+            big[0][-1] = (flop[0], big[0][-1][1])
+        for p in profiles:
+            cfgs.append((p, len(sh), True, dict(flop=flop, ranges=ranges)))
+    return cfgs
